@@ -34,6 +34,8 @@ type Contract struct {
 	LoopGhost   map[int][]string
 	Asserts     []*AnchorClause
 	Trusted     bool
+	IsLemma     bool
+	Vars        [][2]string // lemma variables: name, type
 	Pure        bool
 	MayPanic    bool
 	AllocBound  ast.Expr
@@ -130,6 +132,15 @@ func parseContractFile(path, pkg string) (*ContractFile, error) {
 			continue
 		}
 		word, rest := splitWord(body)
+		if word == "lemma" && !strings.Contains(rest, ":") {
+			name := "lemma:" + strings.TrimSpace(rest)
+			cur = &Contract{Func: name, Pkg: pkg, File: path, Line: lineNo, IsLemma: true, LoopInv: map[int][]ast.Expr{}, LoopInvSrc: map[int][]string{}, LoopGhost: map[int][]string{}, ChanInv: map[string]ast.Expr{}}
+			if _, dup := cf.Contracts[name]; dup {
+				return nil, fail(fmt.Errorf("duplicate lemma %s", name))
+			}
+			cf.Contracts[name] = cur
+			continue
+		}
 		if word == "ghost" {
 			w2, r2 := splitWord(rest)
 			if w2 == "var" {
@@ -155,6 +166,11 @@ func parseContractFile(path, pkg string) (*ContractFile, error) {
 		}
 		cur.Lines = append(cur.Lines, body)
 		switch word {
+		case "vars":
+			for _, r := range strings.Split(rest, ",") {
+				n, t := splitWord(r)
+				cur.Vars = append(cur.Vars, [2]string{n, t})
+			}
 		case "results":
 			for _, r := range strings.Split(rest, ",") {
 				cur.Results = append(cur.Results, strings.TrimSpace(r))
